@@ -407,9 +407,19 @@ def rule_frame(c: Ctx) -> RuleResult:
                 for L in loops:
                     if any(y is d for y in ast.walk(L)):
                         continue            # defined inside this loop: re-read on every iteration
-                    moved = {t.id for n_ in ast.walk(L) for t in _store_names(n_)} & idx_names
+                    stored = {t.id for n_ in ast.walk(L) for t in _store_names(n_)}
+                    moved = stored & idx_names
                     if moved:
                         stale = f"`{x.id} = {U(d.value)}` is read once before the loop at line {L.lineno}, which reassigns {sorted(moved)}"
+                        break
+                    # a loop over lines (it indexes the line tables by a variable it moves): a cell read before the loop belongs
+                    # to one fixed line, whatever its index is called
+                    line_vars = {y.id for n_ in ast.walk(L) if isinstance(n_, ast.Subscript) and isinstance(n_.value, ast.Attribute)
+                                 and n_.value.attr in ("bsCount", "sCount", "tShift", "bMarks", "eMarks")
+                                 for y in ast.walk(n_.slice) if isinstance(y, ast.Name)} & stored
+                    if line_vars:
+                        stale = (f"`{x.id} = {U(d.value)}` is read once before the loop at line {L.lineno}, which walks the lines "
+                                 f"({sorted(line_vars)}) and measures each of them with that one cell")
                         break
                 r.add(f"{f.short}|T4|{alpha(f, m)}|{x.id}", c.where(f, m), f.short, U(m), "violation" if stale else "discharged",
                       f"a stale copy of a line-table cell is used for the column: {stale}; later lines are measured with the first line's "
